@@ -606,6 +606,7 @@ impl rustc_driver::Callbacks for Cb {
         let mut bodies = vec![];
         let mut statics = vec![];
         let owners: Vec<LocalDefId> = tcx.hir_body_owners().collect();
+        let mut wanted: Vec<LocalDefId> = vec![];
         for def in owners {
             let did = def.to_def_id();
             let dk = tcx.def_kind(did);
@@ -625,8 +626,13 @@ impl rustc_driver::Callbacks for Cb {
             if !matches!(dk, DefKind::Fn | DefKind::AssocFn | DefKind::Closure | DefKind::Static { .. } | DefKind::Const { .. } | DefKind::AssocConst { .. }) {
                 continue;
             }
-            let body = tcx.mir_built(def).borrow().clone();
-            bodies.push(cx.body(def, &body));
+            wanted.push(def);
+        }
+        // copy every body before anything else is asked of the compiler: describing one body resolves callees in the post-analysis typing mode, which reveals
+        // `impl Trait` return types, which borrow-checks their defining function, which takes (steals) that function's freshly built MIR
+        let built: Vec<(LocalDefId, Body<'tcx>)> = wanted.iter().map(|d| (*d, tcx.mir_built(*d).borrow().clone())).collect();
+        for (def, body) in built.iter() {
+            bodies.push(cx.body(*def, body));
         }
         // make sure the parse tree root is always described
         let adts = cx.drain_adts();
